@@ -13,10 +13,15 @@ func init() {
 			"T1 every Binds entry K resolves through go/types to the exported package-level object named K of the registered package (functions by value, variables through &v then Elem so that interpreted code aliases the variable, constants by value with at most a value-preserving conversion); " +
 			"T2 every Types entry K is TypeOf((*P.K)(nil)).Elem() of the named type K; T3 every Untypeds string decodes (checker's own reader) to exactly types.Const.Val() of P.K with the same untyped kind, and every bound untyped constant has such an entry; " +
 			"T4 every Proxies entry is a struct {Object interface{}; M_ func(interface{}, params...) results} that implements the interface and whose methods forward receiver.Object then every parameter in order; " +
-			"T5 every Wrappers name is a promoted method (selection path > 1) of the named type in Go's method set; T6 Name equals the package name. " +
+			"T5 every Wrappers name is a promoted method (selection path > 1) of the named type in Go's method set; T6 Name equals the package name; U/A2 the per-kind readers and places of imported variables in fast/import.go are uniform across kinds (each reads the live variable with the accessor of its kind). " +
 			"Not decided: behaviour of the bound functions, completeness of a table with respect to newer toolchains, generated-file freshness.",
-		Assumptions:     []string{"go/types view of the installed standard library (export data) is the oracle", "go/constant arithmetic", "reflect.ValueOf / TypeOf / Elem behave as documented"},
-		Rules:           []func(*Ctx){ruleImportTables, ruleImportTablesFloors},
+		Assumptions: []string{"go/types view of the installed standard library (export data) is the oracle", "go/constant arithmetic", "reflect.ValueOf / TypeOf / Elem behave as documented"},
+		Rules: []func(*Ctx){ruleImportTables, ruleImportTablesFloors, func(c *Ctx) {
+			// loader side: the per-kind readers/places of imported variables in fast/import.go
+			ruleUniformity(c, "fast", []string{"import.go"}, "U-uniform")
+			ruleAccessorFiles(c, "fast", []string{"import.go"}, "A2-accessor")
+			c.Floor("U-uniform", 30)
+		}},
 		ThoroughConfigs: []string{"linux/386", "darwin/amd64", "linux/arm64", "freebsd/amd64", "windows/386"},
 		Mutants: []Mutant{
 			{Name: "bind-swapped-func", File: "imports/strings.go", Old: `"ToUpper":	ValueOf(strings.ToUpper)`, New: `"ToUpper":	ValueOf(strings.ToTitle)`, Canary: true},
